@@ -1,4 +1,10 @@
-\* C07 quick: sequential histories of unbounded length, one request in flight, request-level edges exported
+\* C07 quick - sequential instance of HttpState (one request in flight, histories of unbounded length).
+\*   Requests  RequestsQuick (712): POST x query {absent,Q1,Q2,QX} x operationName {absent,null,A,B}
+\*             x variables {absent,null,V1,V2,undecodable} x extensions {absent,X,hash(Q1),hash(Q2)};
+\*             GET, WS, FORM with present/absent members; GRAPHQL (query only)
+\*   ResetFields = the six fields POST.Do resets; reset in the deferred func; cache keyed on the full text
+\*   PoolMax = 1, Slots = 1.  EmitEdge prints one request-level labelled edge per finished request (-workers 1).
+\* Measured: 76,692 distinct states, 15,696 edges over 18 shared states, depth 23, 15 s.
 CONSTANTS
   Requests <- RequestsQuick
   ResetFields <- AllSix
